@@ -32,7 +32,7 @@ from harness.core import Prop, outcome, orat, unrat
 
 BUILTIN = ["Equal", "x", "1/x", "1/(x^2)", "y", "1/y", "1/(y^2)"]
 TOL = 1e-9          # relative tolerance on gradient/intercept (in the column-scaled norm) and r²
-RHO_MIN = 1e-6      # conditioning guard: D/(Sw*Swxx) below this => undetermined
+RHO_MIN = 1e-18     # conditioning guard: D/(Sw*Swxx) below this => undetermined (above it the perturbation bound decides)
 COV_MARGIN_MIN = 1e-12  # 1 - Σw²/(Σw)² below this => r² not compared (np.cov's normalisation cancels)
 LADDERS = [
     [0, 1, 2, 5, 10], [0, 0.1, 0.5, 1, 5, 10, 50], [0, 10, 20, 50, 100, 200, 500],
@@ -767,8 +767,9 @@ class C06(Prop):
         if unit is None:
             unit = rng.random() < 0.08
         ladder = rng.choice(LADDERS)
-        scale = 10.0 ** rng.choice([0, 0, 0, -3, -2, -1, 1, 2, 3])
-        mode = rng.choice(["ladder"] * 8 + ["few", "same", "zeros", "close"])
+        # ordinary units, and now and then the same ladders written in SI / mass-fraction / count units (1e-12 .. 1e12)
+        scale = 10.0 ** rng.choice([0, 0, 0, -3, -2, -1, 1, 2, 3, 0, -3, -2, -1, 1, 2, 3, -12, -9, -6, 6, 9, 12])
+        mode = rng.choice(["ladder"] * 8 + ["few", "same", "zeros", "close", "close", "two-level"])
         n = rng.choice([2, 2, 3, 3, 4, 4, 5, 5, 6, 7, 8] + ([10, 12] if big else []))
         if unit:
             scale, mode = rng.choice(TRACE_SCALES), "ladder"
@@ -782,8 +783,15 @@ class C06(Prop):
         elif mode == "zeros":
             xs = [0.0] * n
         elif mode == "close":
+            # levels that differ by a small fraction of their mean (spread 1e-3 .. 1e-9 relative)
             b = rng.choice(levels[1:]) * scale
-            xs = [b * (1 + rng.choice([0, 1, 2, 3]) * 10.0 ** rng.choice([-4, -6, -9])) for _ in range(n)]
+            sp = 10.0 ** rng.choice([-3, -4, -5, -6, -7, -9])
+            xs = [b * (1 + rng.choice([0, 1, 2, 3, 3 * rng.random()]) * sp) for _ in range(n)]
+        elif mode == "two-level":
+            # exactly two distinct concentrations (the blank and one standard, or two standards), many replicates
+            n = rng.choice([2, 3, 4, 6, 8, 12])
+            lo, hi = sorted(rng.sample(levels, 2))
+            xs = [lo * scale, hi * scale] + [rng.choice([lo, hi]) * scale for _ in range(n - 2)]
         else:
             if rng.random() < 0.6 and n <= len(levels):
                 k = rng.randint(0, len(levels) - n)
@@ -793,7 +801,7 @@ class C06(Prop):
             else:
                 xs = [rng.choice(levels) for _ in range(n)]  # replicates
             xs = [float(x) * scale for x in xs]
-        g = 10.0 ** rng.uniform(-2, 6)
+        g = 10.0 ** (rng.uniform(-2, 6) if rng.random() < 0.85 else rng.uniform(-9, 12))  # counts, cps, volts, amperes ...
         c = rng.choice([0.0, 0.0, 10.0 ** rng.uniform(-1, 4), g * scale * rng.uniform(0, 2)])
         ymode = rng.choice(["noise", "noise", "noise", "exact", "scatter", "const"] if mode != "few" else ["noise"])
         if unit:
@@ -1096,6 +1104,22 @@ class C06(Prop):
                 yield {"kind": "calibrate", "mode": "fitted", "shape": [3], "conc": [0.0, 2.5 * sc, 7.0 * sc],
                        "fit": {"rows": rows, "weighting": BUILTIN[k % len(BUILTIN)], "cw": None}}
                 yield {"kind": "fit", "rows": rows, "weighting": BUILTIN[(k + 3) % len(BUILTIN)], "cw": None, "perms": []}
+        # the same five-level ladder written in units from 1e-12 (mass fractions, mol/L) to 1e12, responses from
+        # 1e-9 (amperes) to 1e12 (counts); levels that differ by 1e-6 of their mean; two levels with replicates
+        for i, sc in enumerate([1e-12, 1e-9, 1e-6, 1e6, 1e9, 1e12]):
+            for j, rs in enumerate([1.0, 1e-9, 1e9]):
+                w = (BUILTIN + ["Custom"])[(3 * i + j) % 8]
+                yield {"kind": "fit", "rows": [[x * sc, (50.0 + 2000.0 * x + (x * x) % 7) * rs] for x in (0.0, 1.0, 2.0, 5.0, 10.0)],
+                       "weighting": w, "cw": [1.0, 2.0, 0.5, 4.0, 1.0] if w == "Custom" else None, "perms": [], "tables": [">f8"]}
+        for i, sp in enumerate([1e-3, 1e-5, 1e-6, 1e-8]):
+            for j, b in enumerate([100.0, 2.5e-9, 4e7]):
+                yield {"kind": "fit", "rows": [[b * (1 + k * sp), 50.0 + 2000.0 * k + (k * k) % 3] for k in (0, 1, 2, 3)],
+                       "weighting": BUILTIN[(2 * i + j) % 7], "cw": None, "perms": []}
+        for i, w in enumerate(BUILTIN + ["Custom"]):
+            lo, hi = [(0.0, 5.0), (1.0, 10.0), (0.0, 1e-9)][i % 3]
+            rows = [[lo, 3.0], [hi, 500.0], [lo, 5.0], [hi, 520.0], [hi, 480.0], [lo, 4.0], [lo, 3.5], [hi, 505.0]]
+            yield {"kind": "fit", "rows": rows, "weighting": w, "cw": [1.0, 2.0, 0.5, 4.0, 1.0, 3.0, 1.0, 2.0] if w == "Custom" else None,
+                   "perms": [list(reversed(range(8)))]}
         # tables of whole numbers (levels in whole units, responses in raw counts) handed over as integer arrays of every
         # width and byte order, nested lists of Python ints, binary32; custom weights as integers too
         counts = [[0.0, 12.0], [1.0, 52.0], [2.0, 93.0], [5.0, 212.0], [10.0, 410.0], [10.0, 415.0]]
@@ -1263,8 +1287,11 @@ class C06(Prop):
                 # raw sums about the textbook line; equal by `err2_is_residual_variance`)
                 scale = max([abs(y) for _, y in clean_rows] + [0.0]) + abs(mv["intercept"]) \
                     + abs(mv["gradient"]) * max([abs(x) for x, _ in clean_rows] + [0.0])
-                m_ok = abs(got["error"] - mv["error"]) <= 1e-7 * mv["error"] + 1e-9 * scale \
-                    and abs(got["error"] - spec_fit["error"]) <= 1e-7 * spec_fit["error"] + 1e-9 * scale
+                # the fitted values (hence the residuals) of a least-squares problem solved in floating point are good
+                # to eps * kappa relative to the data, kappa = 2/sqrt(rho)
+                etol = max(1e-9, 64 * 2.0 ** -52 * 2.0 / math.sqrt(rho))
+                m_ok = abs(got["error"] - mv["error"]) <= 1e-7 * mv["error"] + etol * scale \
+                    and abs(got["error"] - spec_fit["error"]) <= 1e-7 * spec_fit["error"] + etol * scale
             elif m_ok:
                 m_ok = False
             model_ok = model_ok and m_ok
@@ -1338,6 +1365,16 @@ class C06(Prop):
                 f.add("constant-y(r2 not compared)")
             if len(clean) == 2:
                 f.add("two-usable-rows")
+            lv = sorted(set(x for x, _ in clean))
+            if len(lv) == 2 and len(clean) > 2:
+                f.add("two-levels-with-replicates")
+            mx = max(abs(x) for x in lv)
+            if mx > 0 and (lv[-1] - lv[0]) <= 1e-5 * mx:
+                f.add("level-spread<=1e-5-of-mean")
+            if mx <= 1e-6 or mx >= 1e6:
+                f.add("ladder-scale:" + ("<=1e-6" if mx <= 1e-6 else ">=1e6"))
+            if ys and (max(ys) >= 1e12 or max(ys) <= 1e-6):
+                f.add("response-scale:" + (">=1e12" if max(ys) >= 1e12 else "<=1e-6"))
         return f if nontrivial else []
 
     def build_cal(self, case, ctx, feats):
